@@ -806,6 +806,12 @@ m('resumable-buffer-recycled-after-store','C02',GCS,
 	w.Header().Set("x-goog-generation", strconv.FormatInt(meta.Generation, 10))''','''	g.uploadIds.Remove(id)
 	u.data = u.data[:0] // keep the capacity for a retry of the same upload id
 	w.Header().Set("x-goog-generation", strconv.FormatInt(meta.Generation, 10))''','R77/','the stored object shares its bytes with a buffer that is written again')
+# ---- C11 / R84: a page cut short by maxResults carries a token (the pinned tree's own violation is a known finding;
+# this variant is a different one and must be reported as such)
+m('list-token-never-set','C11','storage/gcsemu/walk.go',
+  '''		lastItemName := items[len(items)-1].Name
+		nextPageToken = gcsutil.EncodePageToken(lastItemName)''','''		lastItemName := items[len(items)-1].Name
+		_ = gcsutil.EncodePageToken(lastItemName)''','R84/listing/page-token-never-set','no page token is ever produced: every listing ends after its first page')
 # ---- C11 / R78: a page is bounded by maxResults
 m('list-prefixes-do-not-count','C11','storage/gcsemu/walk.go',
   '''		if count >= maxResults {
